@@ -263,7 +263,7 @@ func (m *mergedIterator) initQueue() {
 		if it.Valid() {
 			m.pq = append(m.pq, &item{
 				it:    it,
-				key:   it.Key(),
+				key:   append([]byte(nil), it.Key()...), // copy: the iterator reuses its key buffer on Next
 				index: i,
 			})
 			it.Next()
@@ -289,7 +289,7 @@ func (m *mergedIterator) HasNext() bool {
 		// if it has value, push back queue and adjust priority
 		it := item.it
 		if it.Valid() {
-			item.key = it.Key()
+			item.key = append(item.key[:0], it.Key()...) // copy: the iterator reuses its key buffer on Next
 			m.pq.Push(item)
 			m.pq.update(item)
 
